@@ -217,12 +217,38 @@ def run(ctx, chk):
     # B09.6 relocation publishes the new placement only after the bytes are there (rawdb side of every append)
     from props.c10 import data_before_placement
     data_before_placement(ctx, chk, "B09.6")
+    # B09.10 a CachedVec files its snapshot under the very length that bounded the collection (not a re-read one)
+    mat = O.body("vecdb::variants::cached::CachedVec::<V>::materialize")
+
+    def len_sites(op):
+        sl = O.slice_back(mat, op)
+        out = set()
+        for l in sl["locals"]:
+            for d in mat.defs().get(l, []):
+                if d[0] == "call" and any(n.endswith("::len") for n in names(d[2])):
+                    out.add(d[1])
+        return out
+    stores = [(b, st) for b in mat.reachable() for st in mat.blocks[b]["stmts"]
+              if st[0] == "assign" and st[2]["k"] == "agg" and st[2].get("tuple") and len(st[2].get("ops", [])) == 3
+              and "*" in [e for e in st[1]["p"] if isinstance(e, str)]]
+    cols = O.sites(mat, M(r"vecdb::traits::readable::ReadableVec::collect_range(_dyn|_at)?"))
+    if not stores or not cols:
+        raise AnchorMissing("CachedVec::materialize: snapshot store / collect_range site not found")
+    for b, st in stores:
+        key_len = len_sites(st[2]["ops"][0])
+        bound = set()
+        for cb in cols:
+            bound |= len_sites(mat.blocks[cb]["term"]["args"][2])
+        chk.oblige("B09.10 CachedVec::materialize: the cached (len, version, data) entry carries the length that bounded "
+                   "the collection of `data`", bool(key_len & bound), key="B09.10|CachedVec::materialize|key-reread",
+                   msg="a snapshot filed under a length read after the collection claims elements it does not hold: "
+                       "readers of the cache see len() == L2 with L1 values until the length changes again")
     # B09.5 overwrite of published bytes only under PAGES:W
     for b in O.sites(cw, TW):
         t = cw.blocks[b]["term"]
         sl_ = O.slice_back(cw, t["args"][1])
-        overwrites = "start" in sl_["fields"] and not (
-            "vecdb::variants::compressed::inner::page::Page::end" in sl_["calls"] and "start" not in sl_["fields"])
+        # (an offset computed by Page::end() is an append behind the published bytes, whatever else the slice touches)
+        overwrites = "start" in sl_["fields"] and "vecdb::variants::compressed::inner::page::Page::end" not in sl_["calls"]
         if not overwrites:
             chk.oblige("B09.5 compressed write: region write at %s appends (offset from Page::end/next_start)"
                        % t.get("span"), True)
